@@ -43,7 +43,7 @@ CHECKS = {
    technique='symbolic execution of rustc MIR into SMT (z3) with panic/allocation monitors, concolic coverage', ref='DESIGN.md 4/C03'),
  'C05': dict(cat='model_checking', engine='kani+mirsym',
    text='(a) Kani/CBMC on the real wow_srp header ciphers from an ARBITRARY cipher state: decrypt(encrypt(x)) == x, both halves stay in step, untouched bytes stay untouched (Vanilla, TBC; Wrath RC4 keystream involution and data-independence of the state) - one inductive step that covers every session key and every position in a stream. (b) MIRSYM on the plumbing: encrypted writers and decrypting readers/expect helpers of all three expansions with the raw cipher cut to an invertible position-indexed byte transformer; body length, plaintext header and cipher position symbolic: ciphertext = plaintext with exactly the header bytes transformed in order, readers decrypt exactly the header (4 or 5 bytes for Wrath server headers, decided from the decrypted first byte) and consume exactly the announced body.',
-   note='(a) halves are built by transmuting arbitrary bytes of their full size (layout asserted by size); slice lengths <= 6. (b) stubs: the raw cipher, size_without_header/write_into_vec of the representative message, read_opcodes/read_body. (a)+(b)+C02 compose by induction over the message sequence. Quick tier proves the Wrath step for the 5-byte header length only; thorough for every length <= 5.',
+   note='(a) halves are built by transmuting arbitrary bytes of their full size (layout asserted by size); slice lengths <= 6. (b) stubs: the raw cipher, size_without_header/write_into_vec of the representative message, read_opcodes/read_body. (a)+(b)+C02 compose by induction over the message sequence. Quick tier runs the Vanilla and TBC cipher harnesses and the plumbing of all three expansions (the Wrath RC4 keystream harnesses take 14 and 38 minutes and run in the thorough tier: 5-byte header length, then every length <= 5).',
    technique='bounded model checking (Kani/CBMC) of the real cipher + symbolic execution of rustc MIR (z3) of the plumbing', ref='DESIGN.md 4/C05'),
  'C06': dict(cat='model_checking', engine='mirsym',
    text='The coroutine state machines rustc generates for the tokio_/astd_ readers of every login message (three separately generated copies per message) are executed from their MIR against a scripted transport (every sequence of Pending / 1-byte / 2-byte / everything deliveries up to the bound, plus byte-at-a-time delivery) and compared, path by path and for all byte values (z3), with the blocking reader on the same symbolic input: canonical encodings, truncations (same UnexpectedEof) and arbitrary bytes (same error kind).',
